@@ -69,6 +69,8 @@ def obligations(tier: str):
         add(f"tree_{dec}_f9_create", fixture="f9", rep="tree", decider=dec, max_depth=3 if not T else 4)
     for rep in ("ge", "sge", "dsge"):
         add(f"{rep}_f3n_create", fixture="f3n", rep=rep, decider="grow", max_depth=3 if rep != "dsge" else 4, gene_length=6 if rep == "ge" else 2)
+    add("tree_grow_f1p_postponed_annotations_create", fixture="f1p", rep="tree", decider="grow", max_depth=3)
+    add("sge_f1p_postponed_annotations_create", fixture="f1p", rep="sge", decider="grow", max_depth=2, gene_length=2)
     # --- tree variation operators
     for fxn in ("f1", "f3") + (("f2", "f4", "f5ctx") if T else ()):
         add(f"tree_grow_{fxn}_mutate", fixture=fxn, rep="tree", decider="grow", max_depth=2, ops=["mutate"])
